@@ -189,8 +189,9 @@ def games_S2(kind, cfg, sig=None):
                 c = c_pair(kind, cfg, na, sa, nb, sb)
                 for x in X41:
                     gap = x * c
-                    ma = (6 * b * na + gap / 2) / na
-                    mb = (6 * b * nb - gap / 2) / nb
+                    mid = 6 * b * (na + nb) / 2  # both team totals sit symmetrically around this common mean
+                    ma = (mid + gap / 2) / na
+                    mb = (mid - gap / 2) / nb
                     if abs(ma) > 20 * b or abs(mb) > 20 * b:
                         continue
                     yield [[(ma, sa * b)] * na, [(mb, sb * b)] * nb]
